@@ -769,8 +769,8 @@ def _match_impl(prog, T, trait, meth, allow_any_trait=False, trait_raw=None):
     elif len(c2) == 1 and trait_raw and c2[0][3]:
         ta = _trait_arg(trait_raw)
         if ta and not (sig_match(c2[0][3], ta) or sig_match(c2[0][3].lstrip('&'), ta.lstrip('&')) or sig_match(c2[0][3].lstrip('&').split('<')[0], ta.lstrip('&').split('<')[0])):
-            # generic impls (`impl<T> From<T> for X`) keep matching: only reject when both are concrete paths
-            if not re.fullmatch(r'&?[A-Z]\w?', c2[0][3]):
+            # generic impls (`impl<T> From<T> for X`, `impl<'a, T> Span<&'a [T]> for ..`) keep matching: only reject when both are concrete paths
+            if not re.fullmatch(r'&?[A-Z]\w?', c2[0][3]) and not any(re.fullmatch(r'[A-Z]\w?', t) for t in _PATH_TOK.findall(c2[0][3])):
                 c2 = []
     if len(c2) > 1:
         # disambiguate by qualifier vs impl file / declared module
@@ -1382,12 +1382,16 @@ def eval_const_expr(ctx, f, s):
         return exec_func(ctx, prog.consts[st], [])
     if st in ('Option::None', 'std::option::Option::None', 'core::option::Option::None'):
         return NONE
+    if st in ('std::ops::RangeFull', 'core::ops::RangeFull', 'RangeFull'):
+        return Agg('RangeFull', None, ())
     if re.match(r'^(std|core)::iter::Empty(::<.*>)?\(', s):
         return Agg('It:seq', None, ((), 0, 0))
     # a const declared inside a function: defined under a trimmed path, referenced by a longer one
     segs = st.split('::')
-    for k in range(1, len(segs) - 1):
+    for k in range(1, len(segs)):
         cand = '::'.join(segs[k:])
+        if k == len(segs) - 1 and not re.fullmatch(r'_*[A-Z][A-Z0-9_]*', cand):
+            break           # a bare last segment only for SCREAMING_CASE item names (consts, statics)
         if cand in prog.consts:
             return exec_func(ctx, prog.consts[cand], [])
     # unit-like enum variant / function item used as a const
@@ -1404,6 +1408,8 @@ def eval_const_expr(ctx, f, s):
     tgt = resolve(prog, s)
     if tgt[0] in ('mir', 'builtin'):
         return FnPtr(s)
+    if re.search(r'::\{constant#\d+\}$', st):
+        return FnPtr(st)        # an anonymous (inline) const the dump prints without the `const` keyword; only its identity is used
     raise Unsupported('const? ' + s)
 
 
